@@ -214,6 +214,13 @@ def final_probe(c, cfg):
         if len(c) != 0 or list(dict.keys(c)):
             out["usable"] = False
             out["why"] = "not empty after clear"
+        # ... and as a BOUNDED cache: filled past its capacity once more (the ring of an emptied cache is used again)
+        for j in range(m + 2):
+            c["again%d" % j] = j
+        if len(c) != m or sorted(dict.keys(c)) != sorted("again%d" % j for j in range(2, m + 2)):
+            out["usable"] = False
+            out["why"] = "after emptying, %d fresh keys leave %r" % (m + 2, sorted(dict.keys(c)))
+        c.clear()
         if c._lock.owner is not None if hasattr(c._lock, "owner") else False:
             out["usable"] = False
             out["why"] = "lock left held"
@@ -337,6 +344,8 @@ def jobs(tier, seed):
     for _ in range(12 if tier == "thorough" else 16):      # three threads (thorough: with one pre-emption, ~850 executions each)
         cfg = dict(rng.choice(cfgs))
         progs = [[rng.choice(OPS)] for _ in range(3)]
+        if any(p_[0]["op"] in ("getitem", "get", "setdefault") for p_ in progs):
+            cfg["om"] = rng.choice([0, 1, 2])           # lookups that load (and re-enter the cache) while two others wait
         # quick: every order in which the three can take turns at completion / blocking points, no pre-emption
         # (one three-thread program with a pre-emption costs ~850 executions)
         out.append((cfg, rng.choice(inits), progs, 1 if tier == "thorough" else 0))
